@@ -204,3 +204,32 @@ Proof.
   - apply IH; [| apply step_pool_custody; assumption | exact Hr | exact Hr2 | exact Hf2].
     change (fst (step w o)) with (run w [o]). apply run_lp_inv. exact Hl.
 Qed.
+
+(* ---------- from genesis ---------- *)
+Lemma genesis_lp_inv g w : genesis_world g = Ok w -> lp_inv (w_pm w).
+Proof.
+  intros H. unfold genesis_world in H.
+  apply bind_ok in H. destruct H as [b [_ H]].
+  apply bind_ok in H. destruct H as [em [_ H]].
+  apply bind_ok in H. destruct H as [fc [_ H]].
+  apply bind_ok in H. destruct H as [fm [_ H]].
+  apply bind_ok in H. destruct H as [pm [Hpm H]]. inversion H; subst w; clear H.
+  unfold pm_instantiate in Hpm. inv_all. intros id p Hf. cbn in Hf. discriminate.
+Qed.
+
+(* In every world w reached from genesis by ANY history ops1 (not signed by the pool manager), for every continuation ops2 of
+   covered operations passing the run-time side conditions: excess after = excess before + ledger. *)
+Theorem reachable_excess_ledger g w0 ops1 ops2 d :
+  genesis_world g = Ok w0 -> 0 <= amount_of (fm_create_fee (g_fm g)) ->
+  NoDup (map denom_of (g_tf_fee g)) -> (forall f, In f (g_tf_fee g) -> 0 <= amount_of f <= HALF_U128) ->
+  0 <= amount_of (g_pm_fee g) <= HALF_U128 ->
+  Forall op_okP ops1 ->
+  let w := run w0 ops1 in
+  Forall covered_op ops2 -> Forall op_okP ops2 -> fc_ok_run w ops2 = true -> asset_denom d ->
+  slackP (run w ops2) d = slackP w d + ledger w ops2 d.
+Proof.
+  intros Hg H1 H2 H3 H4 Hops1 w Hc Hok Hf Hd.
+  apply excess_ledger; [|exact Hd]. apply good_run_intro; try assumption.
+  - apply run_lp_inv. eapply genesis_lp_inv; eauto.
+  - apply run_pool_custody; [exact Hops1|]. eapply genesis_pool_custody; eauto.
+Qed.
